@@ -4,7 +4,8 @@
 cd /verif
 for d in seeded/*/; do
   id=$(basename $d)
-  props=$(python3 -c "import json;m=json.load(open('$d/meta.json'));print(' '.join(k for k,v in m['caught_by'].items() if not v.lower().startswith('missed')))")
+  if grep -q '"status": "retired' $d/meta.json; then echo "$id: retired (see meta.json)"; continue; fi
+  props=$(python3 -c "import json;m=json.load(open('$d/meta.json'));print(' '.join(k for k,v in m['caught_by'].items() if not v.lower().startswith(('missed','not affected'))))")
   for p in $props; do
     r=$(tools/try_mutant.sh /verif/$d/patch.diff $p 2>&1 | grep -m1 "^CAUGHT\|^MISSED\|^BROKEN\|patch does not apply\|repo not clean" | cut -c1-150)
     echo "$id $p: $r"
